@@ -199,7 +199,14 @@ def component_check(ctx, cases, model):
     iout = vlib.run_lines(drv, lines, timeout=ctx.pick(300, 1500))
     mout = vlib.run_lines(model, lines, timeout=ctx.pick(300, 1500))
     bad = []
-    for l, a, b in zip(lines, iout, mout):
+    for i, (l, a, b) in enumerate(zip(lines, iout, mout)):
+        if a.startswith("DRIVER-DIED") or a.startswith("THROW"):
+            # the real class crashed or threw on a legal input: that is a failing input by itself
+            alone = vlib.run_lines(drv, [l], timeout=120)[0]
+            ctx.report("spec:adjust-counts-crash", "lm::builder::AdjustCounts crashes on a legal sorted n-gram stream (%s)" % a[:120],
+                       {"case": l[:20000], "crashes_alone": alone.startswith("DRIVER-DIED"), "batch_prefix": [x[:20000] for x in lines[max(0, i - 3):i + 1]],
+                        "how": "printf '%s\\n' <batch_prefix...> | c05_adjust_driver (harness/drivers/c05_adjust_driver.cc; ASan variant shows the access)"})
+            break
         pa, pb = a.split(" #"), b.split(" #")
         if len(pa) != 3 or len(pb) != 3:
             bad.append((l, a[:300], b[:300], "unexpected answer"))
